@@ -37,7 +37,7 @@ pub fn prop() -> Prop {
         stub: &["transport", "store", "glue", "random source", "Byzantine sender"],
         independent: &[],
         ref_sample: |_| 0,
-        required_probes: &["kind_proof_response", "kind_proof_commitment", "kind_proof_other_identifier", "kind_proof_other_commitment", "kind_coeff_0", "kind_coeff_last", "kind_len_t_minus_1", "kind_len_t_plus_1", "kind_len_0", "kind_len_t_plus_65536", "kind_share_plus_1", "kind_share_other_recipient", "kind_r1_under_own_id", "kind_r1_under_unknown_id", "kind_r1_missing", "kind_r1_surplus", "kind_r2_under_own_id", "kind_r2_missing", "receiver_last_sender_checked"],
+        required_probes: &["kind_proof_response", "kind_proof_commitment", "kind_proof_other_identifier", "kind_proof_other_commitment", "kind_coeff_0", "kind_coeff_last", "kind_len_t_minus_1", "kind_len_t_plus_1", "kind_len_0", "kind_len_t_plus_65536", "kind_share_plus_1", "kind_share_zero", "kind_share_other_recipient", "kind_r1_under_own_id", "kind_r1_under_unknown_id", "kind_r1_missing", "kind_r1_surplus", "kind_r2_under_own_id", "kind_r2_missing", "receiver_last_sender_checked"],
         prepare: None,
     }
 }
@@ -317,6 +317,10 @@ fn exec_c<C: Suite>(scen: &Scenario) -> Exec {
                 };
                 cases.push(("share_plus_1".into(), Step::Part3, Expect::Named, jid, r1.clone(), with_r2(round2::Package::new(share_from_scalar::<C>(&(honest_share + one::<C>()))))));
                 cases.push(("share_negated".into(), Step::Part3, Expect::Named, jid, r1.clone(), with_r2(round2::Package::new(share_from_scalar::<C>(&neg::<C>(honest_share))))));
+                // structured values: zero (a wiped / default package), one, q - 1
+                cases.push(("share_zero".into(), Step::Part3, Expect::Named, jid, r1.clone(), with_r2(round2::Package::new(share_from_scalar::<C>(&zero::<C>())))));
+                cases.push(("share_one".into(), Step::Part3, Expect::Named, jid, r1.clone(), with_r2(round2::Package::new(share_from_scalar::<C>(&one::<C>())))));
+                cases.push(("share_minus_one".into(), Step::Part3, Expect::Named, jid, r1.clone(), with_r2(round2::Package::new(share_from_scalar::<C>(&neg::<C>(one::<C>()))))));
                 if let Some(k) = k_other {
                     // computed by j for another recipient k
                     cases.push(("share_other_recipient".into(), Step::Part3, Expect::Named, jid, r1.clone(), with_r2(snap.r2_out[j][&ids[k]].clone())));
